@@ -273,7 +273,14 @@ func tail(s string, n int) string {
 func violationConfirmed(v *symgo.Violation, r replayResult) bool {
 	switch v.Kind {
 	case "assert":
-		return r.Result == "fail:"+v.Label
+		if strings.HasPrefix(r.Result, "fail:") {
+			for _, l := range strings.Split(r.Result[5:], "|") {
+				if l == v.Label {
+					return true
+				}
+			}
+		}
+		return false
 	case "panic":
 		return strings.HasPrefix(r.Result, "panic:")
 	case "fatal", "deadlock":
@@ -536,7 +543,7 @@ func cmdRun(prop string, o runOpts) int {
 		}
 		for j := range modelCases {
 			r := results[nViol+j]
-			ok := r.Result == "pass"
+			ok := r.Result == "pass" || onlyFindingLabels(r.Result)
 			why := "native result " + r.Result
 			if ok {
 				ok, why = obsEqual(modelCases[j].Obs, r.Obs)
@@ -578,6 +585,19 @@ func cmdRun(prop string, o runOpts) int {
 		fmt.Fprintf(os.Stderr, "vcheck: %s: INCONCLUSIVE / machinery error (exit 2)\n", p.ID)
 	}
 	return exit
+}
+
+// onlyFindingLabels: a native "fail:" result all of whose labels are finding-region labels (F<n>:...).
+func onlyFindingLabels(res string) bool {
+	if !strings.HasPrefix(res, "fail:") {
+		return false
+	}
+	for _, l := range strings.Split(res[5:], "|") {
+		if !regexp.MustCompile(`^F[0-9]+:`).MatchString(l) {
+			return false
+		}
+	}
+	return true
 }
 
 func harnessTierHasLabel(p *PropSpec, tier string) bool { return true }
